@@ -147,7 +147,31 @@ pub fn do_dispatch(el: &mut EventLoop<'static, ()>, timeout: Option<Duration>) -
         w.t_before = Instant::now();
     });
     let t0 = Instant::now();
-    let r = catch_unwind(AssertUnwindSafe(|| el.dispatch(timeout, &mut ())));
+    // C13 also drives single iterations through run() and block_on(), which have their own calls of the idle phase
+    let (mode, sig) = w(|w| (if w.prop == "C13" { w.dispatch_no % 6 } else { 0 }, w.signal.clone()));
+    let r = catch_unwind(AssertUnwindSafe(|| match (mode, sig) {
+        (4, Some(sig)) => el.run(timeout, &mut (), |_| sig.stop()),
+        (5, Some(sig)) => {
+            // a future that asks for the stop during its first poll: block_on performs exactly one iteration
+            let mut first = true;
+            let s2 = sig.clone();
+            // (block_on waits without a timeout: the wake-up that accompanies the stop request ends the wait)
+            el.block_on(
+                std::future::poll_fn(move |_| {
+                    if first {
+                        first = false;
+                        s2.stop();
+                        s2.wakeup();
+                    }
+                    std::task::Poll::<()>::Pending
+                }),
+                &mut (),
+                |_| {},
+            )
+            .map(|_| ())
+        }
+        _ => el.dispatch(timeout, &mut ()),
+    }));
     let elapsed = t0.elapsed();
     let mut go_on = true;
     let ok = w(|w| {
